@@ -163,6 +163,37 @@ _CALLS = {'PartialOrd::lt': 'lt', 'PartialOrd::le': 'le', 'PartialOrd::gt': 'gt'
           'PartialEq::eq': 'eq', 'PartialEq::ne': 'ne'}
 
 
+def _unsigned_operands(b, sw):
+    """the switch tests a primitive comparison of unsigned integers"""
+    t = b.blocks[sw.bb]['term']
+    d = t['discr']
+    if d.get('k') not in ('copy', 'move') or d['place']['p']:
+        return False
+    seen = 0
+    l = d['place']['l']
+    while seen < 6:
+        ds = [x for x in b.defs.get(l, []) if x[1] != 'call' and not x[2]['lhs']['p']]
+        if len(ds) != 1:
+            return False
+        rv = ds[0][2]['rv']
+        if rv['k'] == 'bin':
+            for o in (rv['a'], rv['b']):
+                if o.get('k') in ('copy', 'move') and not o['place']['p']:
+                    return b.locals[o['place']['l']]['ty'] in ('usize', 'u8', 'u16', 'u32', 'u64', 'u128')
+                if o.get('k') == 'const' and o.get('ty') in ('usize', 'u8', 'u16', 'u32', 'u64', 'u128'):
+                    return True
+            return False
+        if rv['k'] in ('use', 'un') and (rv.get('op') or rv.get('a', {})).get('k') in ('copy', 'move'):
+            o = rv.get('op') if rv['k'] == 'use' else rv['a']
+            if o['place']['p']:
+                return False
+            l = o['place']['l']
+            seen += 1
+            continue
+        return False
+    return False
+
+
 def comparisons(b):
     """Every branch on an ordering / equality test of two values, primitive (`Lt(a, b)`) or through
     the comparison traits: (a, b, rel, edges taken when `a rel b`, edges taken otherwise, block)."""
@@ -170,7 +201,22 @@ def comparisons(b):
     for sw in b.switches:
         on = sw.on
         if sw.kind == 'bool' and on.kind == 'bin' and on.key[0] in _BIN:
-            out.append((on.key[1], on.key[2], _BIN[on.key[0]], sw.edges_for(True), sw.edges_for(False), sw.bb))
+            x, y, rel = on.key[1], on.key[2], _BIN[on.key[0]]
+            # unsigned counters against zero: `n > 0` is `n != 0`, `n <= 0` (never written, but its
+            # negation is what the false edge of `n > 0` means) is `n == 0`; likewise `n >= 1` / `n < 1`
+            if _unsigned_operands(b, sw):
+                for (p_, q_, r_) in ((x, y, rel), (y, x, _FLIP[rel])):
+                    q0 = q_
+                    while q0.kind == 'un':
+                        q0 = q0.key[1]
+                    if q0.kind == 'const' and q0.key == 0 and r_ in ('gt', 'le'):
+                        x, y, rel = p_, q_, {'gt': 'ne', 'le': 'eq'}[r_]
+                        break
+                    if q0.kind == 'const' and q0.key == 1 and r_ in ('ge', 'lt'):
+                        from mir import V
+                        x, y, rel = p_, V('const', 0), {'ge': 'ne', 'lt': 'eq'}[r_]
+                        break
+            out.append((x, y, rel, sw.edges_for(True), sw.edges_for(False), sw.bb))
     for c in b.calls:
         if c.is_('Ord::cmp') and len(c.args) == 2:
             # match a.cmp(&b) { Less => .., Equal => .., Greater => .. }
